@@ -132,7 +132,7 @@ def stepLine (s : DState) (line : String) : DState × String :=
     | _, _ => (s, "bad-op")
   | ["rt", h] =>
     match bytesOfHex? h with
-    | some b => (s, roundTrip b 65536)
+    | some b => (s, roundTrip b 262144)
     | none => (s, "bad-op")
   | _ => (s, "bad-op")
 
